@@ -12,6 +12,8 @@
 //	hexb64.go     Hex* vs encoding/hex, Base64* vs encoding/base64
 //	digest.go     hashz digests / HMAC / stream helpers vs crypto/*
 //	ipv4.go       IPv4 round trip (grid, stratified, all 2^32 in the thorough tier)
+//	strength.go   histories (kept results, reused argument buffers, one-ingredient
+//	              pairs, faulty readers), big inputs, cold start
 package main
 
 import (
@@ -45,10 +47,11 @@ func viewsCase(c *ev.Case) {
 
 func main() {
 	r := ev.New("C15")
-	r.Rule("one case = a seeded batch of inputs for one routine family (400 ParseUint triples from the grammar generator; all boundary values of one (base, bitSize) pair; all short strings with one two-character head; 60 hex / 40 base64 encode+decode inputs; one data length 0..300 through all digests, stream helpers and 3 HMACs; one block of IPv4 addresses); distinct = distinct hash of the batch's inputs; non-trivial = at least one non-empty input reached golib and was compared with the standard library")
+	r.Rule("one case = a seeded batch of inputs for one routine family (400 ParseUint triples from the grammar generator; all boundary values of one (base, bitSize) pair; all short strings with one two-character head; 60 hex / 40 base64 encode+decode inputs; one data length 0..300 through all digests, stream helpers and 3 HMACs; one block of IPv4 addresses; history: 40-70 calls on one goroutine, each a fresh call or the previous one with exactly one ingredient changed, with all returned slices/strings kept and compared again later; big: one input size 2^k-1/2^k/2^k+1 (1 KiB..1 MiB, 4 MiB thorough) through one routine family; cold-start: one fresh process whose first golib call is one named routine); distinct = distinct hash of the batch's inputs; non-trivial = at least one non-empty input reached golib and was compared with the standard library")
 	r.Assume("strconv.ParseUint, encoding/hex, encoding/base64, crypto/{md5,sha1,sha256,sha512,hmac} of the local Go toolchain are the specification; error texts are compared for hex and base64 only (the statement asks ParseUint for value and error presence); strz.ParseUint bitSize 0 means the platform word size, as strconv's IntSize")
 	r.Assume("HexDecodeInPlace: only the returned count, the error and the first n bytes of the buffer are compared; what it leaves behind them is not asserted")
-	r.Assume("stream helpers are fed readers that never fail (chunked, EOF-with-data, zero-length reads); behaviour on a failing reader is outside the statement and not asserted")
+	r.Assume("stream helpers: what a call returns for a reader that fails or panics part-way is outside the statement and not judged; the healthy stream made right after it is (chunked, EOF-with-data, zero-length reads, partly consumed bytes/strings readers and buffers, Limit/Multi/Section readers: the expected digest is that of the bytes the reader still delivers)")
+	r.Assume("a slice or string returned by a routine belongs to the caller: a later golib call must not change it (it would no longer be what the standard library returned), and the caller writing to it must not influence later results")
 	if r.Thorough() {
 		r.Exhaustive() // ipv4/all enumerates all 2^32 addresses in this tier
 	}
@@ -67,6 +70,10 @@ func main() {
 	if r.Thorough() || r.IsReplay() {
 		r.Cases("ipv4/all", 1<<(32-chunkBits), hv, ipv4ChunkCase)
 	}
+	// histories, big inputs, cold start (strength.go)
+	r.Cases("history", r.N(2500, 60000), ev.Opt{HangViolation: true, Serial: true}, historyCase)
+	r.Cases("big", r.N(4*len(bigSizes(false)), 12*len(bigSizes(true))), hv, bigCase)
+	r.CasesProc("cold-start", 2*len(coldFirst), ev.Opt{Procs: 2 * len(coldFirst), HangViolation: true}, coldCase)
 	// zero-copy views (UnsafeString, UnsafeStrOrBytesToBytes behind Base64*, the
 	// digests, Hex*ToString): one pass under -race, which implies checkptr
 	r.CasesProc("views/checkptr", r.N(48, 1500), ev.Opt{Bin: "race", Procs: 4}, viewsCase)
@@ -112,6 +119,45 @@ func main() {
 	r.Require("ipv4_grid_addresses", 20736)
 	r.Require("ipv4_stratified_samples", 1<<22)
 	r.Require("checkptr_cases", 40)
+	r.Require("digest_stream_after_failed_stream", 10000)
+	// strength.go
+	r.Require("history_cases", 2500)
+	r.Require("history_results_kept", 60000)
+	r.Require("history_kept_results_rechecked_after_later_calls", 500000)
+	r.Require("history_arg_in_reused_caller_buffer", 20000)
+	r.Require("history_arg_buffer_scribbled_after_call", 10000)
+	r.Require("history_hmac_key_in_reused_caller_buffer", 2000)
+	r.Require("history_result_scribbled_then_same_call", 5000)
+	r.Require("history_step/same-call-after-scribbled-result", 5000)
+	for _, rel := range []string{"fresh", "same-call-again", "one-content-byte", "content-length", "form", "algorithm", "reader", "reader-fault", "hmac-hash-same-key", "hmac-key-same-data", "encoding", "base", "bit-size", "argument-buffer", "one-octet"} {
+		r.Require("history_step/"+rel, 200)
+	}
+	for _, f := range famNames {
+		r.Require("history_calls/"+f, 3000)
+	}
+	r.Require("history_calls/HexDecodeInPlace", 500)
+	r.Require("history_decode_errors", 3000)
+	r.Require("history_hmac_wrapped_hash", 300)
+	r.Require("history_hmac_key_and_data_one_slice", 100)
+	r.Require("history_stream_reader_delivers_part_of_its_source", 3000)
+	r.Require("history_stream_after_error_reader", 1000)
+	r.Require("history_stream_after_data_with_error_reader", 1000)
+	r.Require("history_stream_after_panicking_reader", 1000)
+	r.Require("big_inputs_ge_4096", 300)
+	r.Require("big_inputs_ge_65536", 100)
+	r.Require("big_inputs_ge_1MiB", 15)
+	r.Require("big_hex_invalid_byte_deep", 200)
+	r.Require("big_b64_corruption_deep", 100)
+	r.Require("big_b64_line_wrapped", 30)
+	r.Require("big_digest_calls", 1000)
+	r.Require("big_hmac_calls", 100)
+	r.Require("big_stream_calls", 100)
+	r.Require("big_pu_long_inputs", 800)
+	r.Require("big_pu_long_inputs_accepted", 100)
+	r.Require("cold_start_cases", int64(2*len(coldFirst)))
+	for _, f := range coldFirst {
+		r.Require("cold_start_first/"+f.name, 2)
+	}
 	if r.Thorough() {
 		r.Require("ipv4_exhaustive_addresses", 1<<32)
 		r.Require("ipv4_chunks_complete", 1<<(32-chunkBits))
